@@ -60,11 +60,11 @@ def usable_entries(max_inputs=8):
 
 
 class Gen:
-    def __init__(self, rnd, max_width=16, names=None):
+    def __init__(self, rnd, max_width=16, names=None, exclude=()):
         self.rnd = rnd
         self.max_width = max_width
         self.k = 0
-        self.entries = usable_entries()
+        self.entries = [e for e in usable_entries() if e.name not in exclude]
 
     def fresh(self, prefix='n'):
         self.k += 1
